@@ -137,7 +137,7 @@ int disasm_cp1610(
           {
             snprintf(instruction, length, "%s 0x%04x (offset=%d z=%d)",
               table_cp1610[n].instr,
-              (address / 2) + 3 + data,
+              (address / 2) + 2 + data,
               data,
               z);
           }
